@@ -447,7 +447,7 @@ func tail(s []string, n int) []string {
 // ---------------------------------------------------------------------------
 
 func runC12(e *Env) {
-	e.Rule = "registration programs with emphasis on scope: Group/Controller nested to depth 5 with clean prefixes (also spelled without leading / with trailing slash; '' and '/' at top level), sibling groups with different middleware, Use between two routes of one group, routes before/inside/between/after groups, and a uniquely named PROBE route registered right after every Group return. Observed: Route.Path() and len(Route.Handlers()) right after registration and at the end, the enter/leave trace of one request per route at the model's full path, and 404 for the route's path without its prefixes. Oracle: reference scope model (prefix concatenation, middleware in effect at registration time, state restored after Group returns). Non-trivial: >= 2 sibling groups, a route after a Group return, or a Use inside a group; distinct by program. A fifth of the programs run on a StrictLastSlash router with route paths ending in a slash. A group may contain one route whose own path is just a variable (GET(\"/{id:[0-9]{3}}\") inside Group(\"/g1\")): its literal head is the group prefix, which is also the beginning of the heads of everything nested below."
+	e.Rule = "registration programs with emphasis on scope: Group/Controller nested to depth 5 with clean prefixes (also spelled without leading / with trailing slash; '' and '/' at top level), sibling groups with different middleware, Use between two routes of one group, routes before/inside/between/after groups, and a uniquely named PROBE route registered right after every Group return. Observed: Route.Path() and len(Route.Handlers()) right after registration and at the end, the enter/leave trace of one request per route at the model's full path, and 404 for the route's path without its prefixes. Oracle: reference scope model (prefix concatenation, middleware in effect at registration time, state restored after Group returns). Non-trivial: >= 2 sibling groups, a route after a Group return, or a Use inside a group; distinct by program. A fifth of the programs run on a StrictLastSlash router with route paths ending in a slash. A group may contain one route whose own path is just a variable (GET(\"/{id:[0-9]{3}}\") inside Group(\"/g1\")): its literal head is the group prefix, which is also the beginning of the heads of everything nested below. On routers with a route cache (capacity 1, 2 or 1000) every dynamic request is repeated at once and once more after all other routes were requested."
 	e.Assumptions = []string{
 		"group prefixes are clean non-root prefixes as in the property's quantifier ('' and '/' only for top-level groups)",
 		"the scope model in harness/mon/prog.go is the trusted statement of the documented group semantics",
@@ -491,6 +491,32 @@ func c12Case(t *T) {
 	for _, rs := range p.Routes {
 		all[rs.Method+rs.FullPath] = true
 	}
+	// with a route cache: every dynamic request is sent once more after all the others (its entry may have
+	// been evicted and its list node reused in between) and must run the chain of its own groups again
+	type again struct {
+		rs   *RouteStmt
+		path string
+		want []string
+	}
+	var secondPass []again
+	defer func() {
+		if p.CacheCap < 1 || t.Failed() {
+			return
+		}
+		for _, a := range secondPass {
+			t.Count("routes.second_pass_after_other_dynamic_requests", 1)
+			rec, pv, panicked := Serve(router, NewReq(a.rs.Method, a.path))
+			if panicked {
+				t.Fail("servehttp-panic", "%s %q (second pass) panicked: %v", a.rs.Method, a.path, pv)
+				return
+			}
+			if !eventsEqual(a.want, rec.Events) {
+				failing = append(failing, a.rs.Name)
+				t.Fail("route-chain-"+classifyTrace(a.want, rec.Events), "route %s: request %s %q repeated after the other routes were requested (route cache capacity %d)\n expected trace: %s\n observed trace: %s", a.rs.Name, a.rs.Method, a.path, p.CacheCap, strings.Join(a.want, " "), strings.Join(rec.Events, " "))
+				return
+			}
+		}
+	}()
 	for _, rs := range p.Routes {
 		t.Count("routes.checked", 1)
 		if rs.Probe {
@@ -537,6 +563,7 @@ func c12Case(t *T) {
 		path := rs.RequestPath(r)
 		rec, pv, panicked := Serve(router, NewReq(rs.Method, path))
 		if !panicked && p.CacheCap >= 1 && strings.Contains(rs.FullPath, "{") {
+			secondPass = append(secondPass, again{rs, path, want})
 			// repeat: answered from the route cache, must carry the same group/route middleware
 			t.Count("routes.cache_hit_repeat", 1)
 			rec, pv, panicked = Serve(router, NewReq(rs.Method, path))
